@@ -125,3 +125,13 @@ func ZZSameState(a, b *ZZEnv) bool {
 	}
 	return true
 }
+
+func (k Keeper) ZZOutgoingSequence(ctx sdk.Context, chain types.ChainID) uint64 {
+	return k.getOutgoingSequence(ctx, chain)
+}
+func (k Keeper) ZZSetOutgoingSequence(ctx sdk.Context, chain types.ChainID, v uint64) {
+	k.setOutgoingSequence(ctx, chain, v)
+}
+func (k Keeper) ZZLastBatchNonce(ctx sdk.Context, chain types.ChainID) uint64 {
+	return k.getLastOutgoingBatchNonce(ctx, chain)
+}
